@@ -632,6 +632,9 @@ def build_scenario(kind, v):
         if kind == "iter":
             import e2_metric
             return e2_metric.iter_scenario(v)
+        if kind == "query_entry":
+            import e2_query
+            return e2_query.query_scenario(v)
         if kind == "search":
             import e2_search
             return e2_search.search_scenario(v, vals.get("unlimited", False))
